@@ -24,7 +24,8 @@ from symx.values import zreal
 
 BOUNDS = {
     "quick": "axis layer: 2 datasets x (<=3,<=2) points and 3 datasets x 2 points, every method and "
-    "dataset order, all axis values and the tolerance symbolic; content layer: see configs",
+    "dataset order, all axis values and the tolerance symbolic; content layer: see configs (incl. 3 pipelines with mixed "
+    "index dependent / independent datasets)",
     "thorough": "axis layer: up to (3,3), (4,2), (2,2,2), (3,2,2) points; content layer: larger grids",
 }
 OUTSIDE = (
